@@ -109,11 +109,13 @@ Section Run.
   Variable fuel : nat.
   Variable nps : list nat.
 
-  (* one iteration of SimpleLoop.loop *)
-  Definition run_frame (f : frame) (s : state) : option (state * list entry * fres) :=
-    let t := f_t f in
-    let dt := match s_last s with None => 0 | Some l => t - l end in
-    let s0 := set_inh false (set_last (Some t) s) in
+  (* one iteration of SimpleLoop.loop; last = self.last_timestamp.  The new
+     value of last_timestamp is always Some (f_t f). *)
+  Definition run_frame (last : option Z) (f : frame) (s : state)
+    : option (state * list entry * fres) :=
+    let t := f_t f in                                     (* timestamp = self.time_function() *)
+    let dt := match last with None => 0 | Some l => t - l end in
+    let s0 := set_inh false s in
     let w := s_curw s in
     let np := np_of nps (s_curh s) in
     let pos := eff_pos (f_org f) (f_pos f) np in
@@ -133,16 +135,16 @@ Section Run.
         end
     end.
 
-  Fixpoint run_frames (fs : list frame) (ek : endkind) (s : state)
+  Fixpoint run_frames (last : option Z) (fs : list frame) (ek : endkind) (s : state)
     : option (state * list entry * fres) :=
     match fs with
     | [] => Some (s, [EClockEnd ek (s_curw s) (s_curh s)],
                   match ek with EndQuit => FQuit | EndOther => FOther end)
     | f :: fs' =>
-        match run_frame f s with
+        match run_frame last f s with
         | None => None
         | Some (s1, l1, FCont) =>
-            match run_frames fs' ek s1 with
+            match run_frames (Some (f_t f)) fs' ek s1 with
             | None => None
             | Some (s2, l2, r2) => Some (s2, l1 ++ l2, r2)
             end
@@ -151,31 +153,33 @@ Section Run.
     end.
 End Run.
 
-(* SimpleLoop.start / Loop.start *)
-Definition run_start (nps : list nat) (fs : list frame) (ek : endkind) (rs : list reaction)
-           (s : state) : option (state * list entry) :=
-  let s0 := set_reacts rs (set_running true s) in
-  match run_frames (S (length rs)) nps fs ek s0 with
+(* SimpleLoop.start: try: Loop.start() finally: last_timestamp = None
+   Loop.start: running = True; try: loop() except Quit: running = False.
+   Returns the state, the timestamp left behind and the log. *)
+Definition run_start (nps : list nat) (last : option Z) (fs : list frame) (ek : endkind)
+           (rs : list reaction) (s : state) : option (state * option Z * list entry) :=
+  let running := true in
+  match run_frames (S (length rs)) nps last fs ek (set_reacts rs s) with
   | None => None
   | Some (s1, l, r) =>
-      let s2 := match r with FQuit => set_running false s1 | _ => s1 end in
-      let s3 := set_last None s2 in
+      let running := match r with FQuit => false | _ => running end in
       let out := match r with
-                 | FQuit => Returned (s_running s3)
+                 | FQuit => Returned running
                  | FSwitch => RaisedSwitch
                  | _ => RaisedOther
                  end in
-      Some (s3, l ++ [EEnd out (s_curw s3) (s_curh s3)])
+      Some (s1, None (* finally *), l ++ [EEnd out (s_curw s1) (s_curh s1)])
   end.
 
-Definition run_op (nps : list nat) (o : op) (s : state) : option (state * list entry) :=
+Definition run_op (nps : list nat) (last : option Z) (o : op) (s : state)
+  : option (state * option Z * list entry) :=
   match o with
   | OTop h cc cn rs =>
       match loop_switch (react_n (S (length rs))) h cc cn (set_reacts rs s) with
       | None => None
       | Some (s1, l, r) =>
           let w := s_curw s1 in let hh := s_curh s1 in
-          Some (set_inh false s1,
+          Some (set_inh false s1, last,
                 l ++ [match r with
                       | RNorm => ETopDone w hh
                       | RExn XQuit => ETopExc TQuit w hh
@@ -183,20 +187,21 @@ Definition run_op (nps : list nat) (o : op) (s : state) : option (state * list e
                       | RExn (XSW _ _ _ _) => ETopExc TSwitch w hh
                       end])
       end
-  | OStart fs ek rs => run_start nps fs ek rs s
+  | OStart fs ek rs => run_start nps last fs ek rs s
   end.
 
-Fixpoint run_ops (nps : list nat) (ops : list (op * list entry)) (s : state) : bool :=
+Fixpoint run_ops (nps : list nat) (last : option Z) (ops : list (op * list entry)) (s : state)
+  : bool :=
   match ops with
   | [] => true
   | (o, obs) :: ops' =>
-      match run_op nps o s with
+      match run_op nps last o s with
       | None => false
-      | Some (s1, l) => log_eqb l obs && run_ops nps ops' s1
+      | Some (s1, last1, l) => log_eqb l obs && run_ops nps last1 ops' s1
       end
   end.
 
-Definition accepts (c : rcase) : bool := run_ops (c_nps c) (c_ops c) init.
+Definition accepts (c : rcase) : bool := run_ops (c_nps c) None (c_ops c) init.
 
 (* ---- input domain -------------------------------------------------------- *)
 Fixpoint sorted_from (t : Z) (l : list Z) : bool :=
@@ -211,9 +216,11 @@ Definition op_times (o : op) : list Z :=
 Definition first_is_top (ops : list (op * list entry)) : bool :=
   match ops with (OTop _ _ _ _, _) :: _ => true | _ => false end.
 
+Definition is_callback (o : origin) : bool :=
+  match o with OCallback _ _ => true | _ => false end.
+
 (* scripted origins of frames are never callbacks *)
-Definition frame_origin_ok (f : frame) : bool :=
-  match f_org f with OCallback _ _ => false | _ => true end.
+Definition frame_origin_ok (f : frame) : bool := negb (is_callback (f_org f)).
 
 Definition wf_b (c : rcase) : bool :=
   forallb (fun n => (1 <=? n)%nat) (c_nps c)
